@@ -101,6 +101,7 @@ static std::unique_ptr<tbox::util::Serializer> ser;
 static std::unique_ptr<InBuf> des_buf;
 static std::unique_ptr<tbox::util::Deserializer> des;
 static void ser_reset() { ser.reset(); ser_buf.reset(); ser_vec.reset(); des.reset(); des_buf.reset(); }
+static std::unique_ptr<tbox::crypto::AES> aes_obj;      // the one AES object of an execution (histories: ctor, setKey, cipher, invcipher)
 static json ser_mem() { return ser_vec ? jbytes(*ser_vec) : jbytes(ser_buf->p, ser_buf->cap); }
 static tbox::util::Endian endian_of(bool big) { return big ? tbox::util::Endian::kBig : tbox::util::Endian::kLittle; }
 static size_t need_of(long long n) { return n < 0 ? (size_t)-1 - (size_t)(-n - 1) : (size_t)n; }      // -1 -> SIZE_MAX, -2 -> SIZE_MAX-1 ...
@@ -111,7 +112,7 @@ static void exec(json d) {
     const std::string e = d.value("e", "");
     g_current = d.dump();
     json r = {{"e", e}};
-    if (e == "Reset") { ser_reset(); emit(r); return; }
+    if (e == "Reset") { ser_reset(); aes_obj.reset(); emit(r); return; }
     if (e == "Fault") return;
     announce(g_current);                       // (the orchestrator drops the Call lines of calls that returned)
     g_ioff = d.value("ioff", 0); g_ooff = d.value("ooff", 0);
@@ -249,6 +250,37 @@ static void exec(json d) {
         else { aes.cipher(ib.p, o1.p); aes.invcipher(ib.p, o2.p); }
         if (alias) r["alias"] = true;
         r["key"] = d["key"]; r["in"] = d["in"]; r["enc"] = jbytes(o1.p, 16); r["dec"] = jbytes(o2.p, 16); r["g"] = o1.intact() && o2.intact();
+    } else if (e == "AesNew" || e == "AesSetKey") {
+        Bytes key = bytes_of(d["key"]);
+        {   InBuf kb(key);                                   // the key buffer is freed right after the call: the object must not keep the pointer
+            if (e == "AesNew") aes_obj.reset(new tbox::crypto::AES(key.empty() ? nullptr : kb.p));
+            else { if (!aes_obj) return; aes_obj->setKey(kb.p); } }
+        r["key"] = d["key"];
+    } else if (e == "AesCipher" || e == "AesInv") {
+        if (!aes_obj) return;
+        Bytes in = bytes_of(d["in"]); bool alias = d.value("alias", false);
+        InBuf ib(in); OutBuf ob(16);
+        const uint8_t *src = ib.p;
+        if (alias) { memcpy(ob.p, in.data(), 16); src = ob.p; }
+        if (e == "AesCipher") aes_obj->cipher(src, ob.p); else aes_obj->invcipher(src, ob.p);
+        r["in"] = d["in"]; r["alias"] = alias; r["out"] = jbytes(ob.p, 16); r["g"] = ob.intact();
+    } else if (e == "HexBig") {
+        // RawDataToHexStr of n pattern bytes (byte i = i % 251) - up to 65535 bytes, the text up to ~330 000 characters - reported
+        // through its periodic structure: first period, length, and where it differs from itself one period earlier
+        size_t n = d.value("n", 0); bool up = d.value("up", false); Bytes dl = bytes_of(d["delim"]); bool rt = d.value("rt", true);
+        Bytes data(n); for (size_t i = 0; i < n; ++i) data[i] = (uint8_t)(i % 251);
+        InBuf ib(data);
+        std::string text = tbox::util::string::RawDataToHexStr(ib.p, (uint16_t)n, up, str_of(dl));
+        const size_t P = 251 * (2 + dl.size());
+        long long nper = 0; json where = json::array();
+        for (size_t k = P; k < text.size(); ++k) if (text[k] != text[k - P]) { if (nper < 8) where.push_back(k); ++nper; }
+        r["n"] = n; r["up"] = up; r["delim"] = d["delim"]; r["rt"] = rt; r["len"] = text.size();
+        r["head"] = jbytes(text.substr(0, std::min(P, text.size()))); r["nper"] = nper; r["where"] = where;
+        if (rt) {
+            Bytes back; std::string exc = guarded([&] { tbox::util::string::HexStrToRawData(text, back, str_of(dl)); });
+            long long bn = 0; for (size_t k = 251; k < back.size(); ++k) if (back[k] != back[k - 251]) ++bn;
+            r["exc"] = exc; r["blen"] = back.size(); r["bnper"] = bn; r["bhead"] = jbytes(back.data(), std::min<size_t>(251, back.size()));
+        }
     } else if (e == "SerNew") {
         std::string kind = d["kind"]; size_t size = d.value("size", 0); bool big = d["big"];
         ser_reset();
@@ -413,6 +445,18 @@ struct Gen {
         } else if (k == "Aes") { if (rng.chance(50)) c["alias"] = true; c["key"] = rng.chance(20) ? json(std::vector<int>(16, rng.chance(50) ? 0 : 255)) : bytes(16); c["in"] = rng.chance(20) ? json(std::vector<int>(16, rng.chance(50) ? 0 : 255)) : bytes(16); }
         return c;
     }
+    // one history of one AES object
+    void aesobj(std::vector<json> &out) {
+        std::vector<json> keys = {bytes(16), bytes(16), json(std::vector<int>(16, 0))};
+        out.push_back({{"e", "AesNew"}, {"key", rng.chance(25) ? json::array() : keys[rng.below(3)]}});
+        bool keyed = !out.back()["key"].empty(); json lastout;
+        int n = (int)rng.range(3, 9);
+        for (int i = 0; i < n; ++i) {
+            int f = (int)rng.below(10);
+            if (!keyed || f < 3) { out.push_back({{"e", "AesSetKey"}, {"key", keys[rng.below(3)]}}); keyed = true; }
+            else out.push_back({{"e", f < 6 ? "AesCipher" : "AesInv"}, {"in", bytes(16)}, {"alias", rng.chance(40)}});
+        }
+    }
     // one serializer / deserializer episode
     void serial(std::vector<json> &out) {
         bool raw = rng.chance(70); size_t size = raw ? (size_t)rng.below(20) : 0;
@@ -470,9 +514,10 @@ int main(int argc, char **argv) {
         Gen g(seed);
         for (int x = 0; x < nexec; ++x) {
             for (auto &k : kinds) {
-                int reps = (k == "Md5" || k == "Aes") ? 1 : 3;
+                int reps = (k == "Md5" || k == "Aes" || k == "AesObj") ? 1 : 3;
                 for (int i = 0; i < reps; ++i) {
-                    if (k == "Serial") { std::vector<json> ops; g.serial(ops); for (auto &o : ops) { if (g.rng.chance(50)) o["ioff"] = g.rng.below(8); if (g.rng.chance(50)) o["ooff"] = g.rng.below(8); exec(o); } }
+                    if (k == "AesObj") { std::vector<json> ops; g.aesobj(ops); for (auto &o : ops) { if (g.rng.chance(50)) o["ioff"] = g.rng.below(8); if (g.rng.chance(50)) o["ooff"] = g.rng.below(8); exec(o); } }
+                    else if (k == "Serial") { std::vector<json> ops; g.serial(ops); for (auto &o : ops) { if (g.rng.chance(50)) o["ioff"] = g.rng.below(8); if (g.rng.chance(50)) o["ooff"] = g.rng.below(8); exec(o); } }
                     else { json c = g.call(k); if (g.rng.chance(60)) c["ioff"] = g.rng.below(8); if (g.rng.chance(40)) c["ooff"] = g.rng.below(8); exec(c); }
                 }
             }
